@@ -21,7 +21,9 @@ def validate_split(ctx, fam, mod, trace, evs, parts):
     by side; line numbers of the reports are mapped back to the whole trace."""
     if parts <= 1:
         return vlib.validate_trace(ctx, fam, mod, mod + ".cfg", trace, timeout=1200)
-    starts = [i for i, e in enumerate(evs) if e["ev"] in ("cfg", "lb")]
+    # a segment begins where the driver resets everything: `cfg` (weighted clusters) / `sick` with no host (EDF: the health
+    # pattern of the next balancer follows, then its `lb`) - never cut between a `sick` event and the `lb` it belongs to
+    starts = [i for i, e in enumerate(evs) if e["ev"] == "cfg" or (e["ev"] == "sick" and not e.get("hs"))]
     if len(starts) < parts * 2:
         return vlib.validate_trace(ctx, fam, mod, mod + ".cfg", trace, timeout=1200)
     lines = open(trace).read().splitlines()
